@@ -1,1 +1,78 @@
 // Kani contract harnesses for /repo/arrow-arith/src/bitwise.rs (child module: sees private items via super::)
+//
+// Bitwise kernels on Int32Array: per row the bit operation on the two valid values; a row is null
+// exactly where an input row is null; bytes under null slots are irrelevant (C02, C12).
+// Grid rule: 2 rows (concrete), validity buffers present on both sides; values / validity / payloads /
+// scalars symbolic.  Forget rule applied.  Stubs: alloc::fmt::format.
+use super::*;
+use arrow_array::types::Int32Type;
+use arrow_buffer::{BooleanBuffer, Buffer, NullBuffer, ScalarBuffer};
+#[path = "/verif/kani/support/spec.rs"]
+mod spec;
+use spec::*;
+
+const N: usize = 2;
+fn mk(vals: [i32; N], valid: u8) -> Int32Array {
+    Int32Array::new(ScalarBuffer::from(vals.to_vec()), Some(NullBuffer::new(BooleanBuffer::new(Buffer::from_slice_ref(&[valid]), 0, N))))
+}
+fn check(r: &Result<Int32Array, ArrowError>, valid: u8, want: [i32; N]) {
+    match r {
+        Ok(o) => {
+            assert!(o.len() == N);
+            for k in 0..N {
+                assert!(o.is_valid(k) == ((valid >> k) & 1 == 1));
+                if o.is_valid(k) { assert!(o.value(k) == want[k]); }
+            }
+        }
+        Err(_) => assert!(false),
+    }
+}
+
+// Contract (C02, C12): bitwise_and / or / xor / and_not / shift_left / shift_right on two 2-row
+// Int32Arrays: Ok; row k null <=> a[k] or b[k] null; otherwise a[k] OP b[k] with OP = & | ^, a & !b, and
+// for the shifts a << (b mod 32) resp. arithmetic a >> (b mod 32) (the count is the low 5 bits of b:
+// wrapping shift).
+// @unit name=bitwise_binary_len2 props=C02,C12 kind=bounded bound=len=2_Int32_both_validity_buffers fns=bitwise_and,bitwise_or,bitwise_xor,bitwise_and_not,bitwise_shift_left,bitwise_shift_right,bitwise_op mem=4 timeout=900 tier=thorough was_quick=1 confirmed=0
+#[kani::proof]
+#[kani::unwind(4)]
+#[kani::stub(alloc::fmt::format, stub_format)]
+fn bitwise_binary_len2() {
+    let (av, bv): ([i32; N], [i32; N]) = (kani::any(), kani::any());
+    let (am, bm): (u8, u8) = (kani::any(), kani::any());
+    let (a, b) = (mk(av, am), mk(bv, bm));
+    let both = am & bm;
+    let f = |g: fn(i32, i32) -> i32| [g(av[0], bv[0]), g(av[1], bv[1])];
+    let r = bitwise_and(&a, &b); check(&r, both, f(|x, y| x & y)); std::mem::forget(r);
+    let r = bitwise_or(&a, &b); check(&r, both, f(|x, y| x | y)); std::mem::forget(r);
+    let r = bitwise_xor(&a, &b); check(&r, both, f(|x, y| x ^ y)); std::mem::forget(r);
+    let r = bitwise_and_not(&a, &b); check(&r, both, f(|x, y| x & !y)); std::mem::forget(r);
+    let r = bitwise_shift_left(&a, &b); check(&r, both, f(|x, y| ((x as u32) << ((y as u32) % 32)) as i32)); std::mem::forget(r);
+    let r = bitwise_shift_right(&a, &b); check(&r, both, f(|x, y| x >> ((y as u32) % 32))); std::mem::forget(r);
+    kani::cover!(both & 3 == 0b01 && am & 3 == 0b11);
+    kani::cover!(both & 3 == 3 && bv[0] < 0 && bv[1] > 40);
+    std::mem::forget((a, b));
+}
+
+// Contract (C02, C12): bitwise_not and the *_scalar kernels on a 2-row Int32Array with scalar s: Ok;
+// row k null <=> a[k] null; otherwise !a[k], a[k] & s, a[k] | s, a[k] ^ s, a[k] << (s mod 32),
+// a[k] >> (s mod 32) (arithmetic).
+// @unit name=bitwise_unary_len2 props=C02,C12 kind=bounded bound=len=2_Int32_validity_buffer fns=bitwise_not,bitwise_and_scalar,bitwise_or_scalar,bitwise_xor_scalar,bitwise_shift_left_scalar,bitwise_shift_right_scalar mem=4 timeout=900 tier=thorough was_quick=1 confirmed=0
+#[kani::proof]
+#[kani::unwind(4)]
+#[kani::stub(alloc::fmt::format, stub_format)]
+fn bitwise_unary_len2() {
+    let av: [i32; N] = kani::any();
+    let am: u8 = kani::any();
+    let s: i32 = kani::any();
+    let a = mk(av, am);
+    let sh = (s as u32) % 32;
+    let r = bitwise_not(&a); check(&r, am, [!av[0], !av[1]]); std::mem::forget(r);
+    let r = bitwise_and_scalar(&a, s); check(&r, am, [av[0] & s, av[1] & s]); std::mem::forget(r);
+    let r = bitwise_or_scalar(&a, s); check(&r, am, [av[0] | s, av[1] | s]); std::mem::forget(r);
+    let r = bitwise_xor_scalar(&a, s); check(&r, am, [av[0] ^ s, av[1] ^ s]); std::mem::forget(r);
+    let r = bitwise_shift_left_scalar(&a, s); check(&r, am, [((av[0] as u32) << sh) as i32, ((av[1] as u32) << sh) as i32]); std::mem::forget(r);
+    let r = bitwise_shift_right_scalar(&a, s); check(&r, am, [av[0] >> sh, av[1] >> sh]); std::mem::forget(r);
+    kani::cover!(am & 3 == 0b10 && s < 0);
+    kani::cover!(am & 3 == 3 && sh > 0);
+    std::mem::forget(a);
+}
